@@ -474,7 +474,7 @@ func mkResolver(dnsAddr string) *net.Resolver {
 }
 
 func main() {
-	run := lib.Start("C14", "generated decision-tree PAC scripts (depth <= 6; conditions over isPlainHostName, dnsDomainIs, localHostOrDomainIs, dnsDomainLevels, shExpMatch on host and url, isInNet, isResolvable, isResolvableEx, isInNetEx with !, &&, ||; unique leaves; FindProxyForURL or FindProxyForURLEx entry; half of them with global state around a blocking helper call; one query per script returning a non-string / non-ASCII value) evaluated for 40-100 (url, host) queries sequentially and by 32 goroutines through one pool, against a Go reference evaluator of the tree with its own helper implementations and a deterministic DNS stub; direct value probes of every helper; entry-point rules; result-list parsing vs a reference parser; distinct = (helpers used, depth, entry, stateful) signatures + probe classes")
+	run := lib.Start("C14", "generated decision-tree PAC scripts (depth <= 6; conditions over isPlainHostName, dnsDomainIs, localHostOrDomainIs, dnsDomainLevels, shExpMatch on host and url, isInNet, isResolvable, isResolvableEx, isInNetEx with !, &&, ||; unique leaves; FindProxyForURL or FindProxyForURLEx entry; half of them with global state around a blocking helper call; one query per script returning a non-string / non-ASCII value) evaluated for 40-100 (url, host) queries sequentially and by 32 goroutines through one pool, against a Go reference evaluator of the tree with its own helper implementations and a deterministic DNS stub; direct value probes of every helper; entry-point rules; the ASCII rule for every code point 0x01-0x7F (accepted unchanged) and ten code points on the encoding boundaries from U+0080 to U+10FFFF (error) at three positions; result-list parsing vs a reference parser; distinct = (helpers used, depth, entry, stateful) signatures + probe classes")
 	root := run.RNG()
 	z := &zone{a: map[string][]net.IP{
 		"www.example.com": {net.ParseIP("93.184.216.34").To4()}, "example.com": {net.ParseIP("93.184.216.34").To4()},
@@ -502,6 +502,7 @@ func main() {
 	listHelpersConcurrent(run, root.Sub(990001), rf, res, nScripts)
 	probes(run, root, rf, res)
 	entryPoints(run, res)
+	resultCharset(run, res)
 	parsing(run, root)
 	run.Floor("answers_compared", int64(nScripts*nQ*8/10))
 	run.Floor("concurrent_answers_compared", int64(nScripts*nQ*3))
